@@ -128,4 +128,50 @@ theorem gridNum_pos (mn mx dw : ℚ) (hdw : 0 < dw) (h : gridTol dw < mx - mn) :
   omega
 
 
+theorem minDiff_pos : ∀ (l : List ℚ), StrictInc l → 2 ≤ l.length →
+    ∃ d, minDiff l = some d ∧ 0 < d ∧ ∀ a b, l.head? = some a → l.getLast? = some b → d ≤ b - a := by
+  intro l
+  induction l with
+  | nil => intro _ h; simp at h
+  | cons x0 l ih =>
+    intro hs h2
+    cases l with
+    | nil => simp at h2
+    | cons x1 xs =>
+      have h01 : x0 < x1 := (List.pairwise_cons.mp hs).1 x1 (by simp)
+      cases xs with
+      | nil =>
+        refine ⟨x1 - x0, by simp [minDiff], by linarith, ?_⟩
+        intro a b ha hb; simp at ha hb; subst ha; subst hb; exact le_refl _
+      | cons x2 rest =>
+        obtain ⟨d, hd, hpos, hle⟩ := ih (List.pairwise_cons.mp hs).2 (by simp)
+        have hm : minDiff (x0 :: x1 :: x2 :: rest) = some (min (x1 - x0) d) := by
+          have : minDiff (x0 :: x1 :: x2 :: rest) = some (match minDiff (x1 :: x2 :: rest) with | some d => min (x1 - x0) d | none => x1 - x0) := rfl
+          rw [this, hd]
+        refine ⟨min (x1 - x0) d, hm, lt_min (by linarith) hpos, ?_⟩
+        intro a b ha hb
+        simp only [List.head?_cons, Option.some.injEq] at ha
+        rw [List.getLast?_cons_cons] at hb
+        have h1 := hle x1 b (by simp) hb
+        have h2' : x1 - x0 ≤ b - a := by rw [← ha]; linarith
+        exact le_trans (min_le_left _ _) h2'
+
+
+theorem ends_of_valid (s : Spectrum) (h : WF s) (v : validWave s.wave = true) (l : 2 ≤ s.wave.length) :
+    ∃ lo hi d, s.wave.head? = some lo ∧ s.wave.getLast? = some hi ∧ minL s.wave = some lo ∧ maxL s.wave = some hi ∧
+      minDiff s.wave = some d ∧ 0 < d ∧ d ≤ hi - lo ∧ 0 < lo := by
+  obtain ⟨d, hd, hpos, hle⟩ := minDiff_pos s.wave h.1 l
+  have hs := h.1
+  have hv := (validWave_iff _).mp v
+  generalize s.wave = w at hd hle hs hv l ⊢
+  match w, l with
+  | x0 :: x1 :: xs, _ =>
+    cases hb : (x0 :: x1 :: xs).getLast? with
+    | none => simp at hb
+    | some b =>
+      refine ⟨x0, b, d, rfl, rfl, ?_, ?_, hd, hpos, hle x0 b rfl hb, hv.1 x0 (by simp)⟩
+      · rw [minL_eq_head _ hs]; rfl
+      · rw [maxL_eq_getLast _ hs]; exact hb
+
+
 end Lentil.Spec
